@@ -522,3 +522,72 @@ def coqchk(prop, log):
     if rc != 0 or missing:
         return False, f"coqchk rc={rc}; not reported empty: {missing}; tail: {flat[-600:]}"
     return True, "coqchk -o: Axioms: <none>; no type-in-type, no unsafe fixpoints, no assumed positivity"
+
+
+# ------------------------------------------------------------------ Miri (C07 runtime support)
+def miri_select(cases, limit):
+    out, seen = [], set()
+    for c in cases:
+        if len(out) >= limit:
+            break
+        if c.var not in ("bw", "cw") or "S" not in c.ops or "N" in c.ops or c.entry not in ("values", "build"):
+            continue
+        if not (1 <= len(c.pats) <= 5) or any(len(p) > 6 for p, _ in c.pats) or any(len(h) > 12 for h in c.hays) or not c.hays:
+            continue
+        try:
+            if c.var == "cw" and max(ord(ch) for p, _ in c.pats for ch in p.decode("utf-8")) >= 0x400:
+                continue
+            if c.var == "cw":
+                for h in c.hays:
+                    h.decode("utf-8")
+        except (UnicodeDecodeError, ValueError):
+            continue
+        key = (c.var, c.kind)
+        if key in seen and len(seen) < 6:
+            continue
+        seen.add(key)
+        out.append(c.clone("miri_" + c.id, ops="SR", group=None))
+    # fixed cases: every UTF-8 width class in the haystack of a character-wise leftmost automaton (decoder
+    # and slicing paths), bytes 0x00 / 0xFF around a byte-wise leftmost-first automaton, round trips
+    import gen as _gen
+    out.append(_gen.Case("miri_fix_cw", "cw", 1, 1, "u16", "values", "SR",
+                         [("a\u00e9".encode(), 1), ("\u00e9".encode(), 2), ("\u20ac".encode(), 3)],
+                         ["xa\u00e9\U0001F600\u00e9\u20aca".encode(), "\U0010FFFF\u00e9".encode()], b"\x07\x08", suite="miri"))
+    out.append(_gen.Case("miri_fix_bw", "bw", 2, 16, "u64", "values", "SR",
+                         [(b"ab", 1), (b"a", 2), (b"abc", 3), (b"\x00\xff", 4)], [b"\x00abca\xff\x00\xff", b""], b"\x01", suite="miri"))
+    return out
+
+
+def miri_check(picked, release_exe, tag, log):
+    """runs the harness under Miri (cargo +nightly miri run) on a few minimal cases: Miri reports any
+    undefined behaviour (out-of-bounds or uninitialised reads, invalid chars, aliasing violations) that
+    the searches, the builders or deserialize_unchecked perform on them, and its observations must be
+    those of the release build.  -> (status, detail, failing case id or None); status in
+    {"ok", "ub", "differs", "unavailable"}.  "unavailable" (no Miri in this environment) is not an alarm."""
+    if not picked:
+        return "ok", "no case sampled", None
+    wd = os.path.join(BUILD, "runs", tag)
+    os.makedirs(wd, exist_ok=True)
+    path = os.path.join(wd, "miri.case")
+    open(path, "w").write("".join(c.text() for c in picked))
+    env = {"MIRIFLAGS": "-Zmiri-disable-isolation", "CARGO_TARGET_DIR": os.path.join(BUILD, "miri"), "RUSTFLAGS": GUARD_RUSTFLAGS}
+    rc, out = sh(f"timeout 1500 cargo +nightly miri run --offline -- {path} 0", cwd=os.path.join(ROOT, "harness"), env=env, timeout=1600)
+    log.append(("cargo miri run", rc, out[-2500:]))
+    if "Undefined Behavior" in out:
+        cur = None
+        for line in out.splitlines():
+            if line.startswith("CASE "):
+                cur = line.split()[1]
+        m = re.search(r"error: Undefined Behavior:[^\n]*", out)
+        return "ub", (m.group(0) if m else "Undefined Behavior") + f" (while running case {cur})", cur
+    obs = parse_obs(out)
+    if rc != 0 or not obs or not all(l and l[-1] == "#END" for l in obs.values()):
+        return "unavailable", f"cargo +nightly miri run did not complete (rc={rc}): {out[-300:]}", None
+    rc2, out2 = run_watch([release_exe, path, "0"], 60, 300)
+    ref = parse_obs(out2)
+    for c in picked:
+        a = [l for l in obs.get(c.id, []) if not l.startswith("TICKS") and not l.startswith("RTICKS")]
+        b = [l for l in ref.get(c.id, []) if not l.startswith("TICKS") and not l.startswith("RTICKS")]
+        if a != b:
+            return "differs", f"observations under Miri differ from the release build on {c.id}", c.id
+    return "ok", f"{len(picked)} minimal cases run under Miri without undefined behaviour, observations equal to the release build: " + " ".join(c.id for c in picked), None
